@@ -581,4 +581,204 @@ theorem sg_sys_trim_of_release (hrel : release_unused_segments_Spec) : sys_trim_
     subst h
     exact ⟨hi, fun _ _ => Iff.rfl⟩
 
+/-! ## `releaseLoop`, `release_unused_segments` -/
+
+/-- only the free lists changed (same headers, same `top`, same segments): the invariant follows from the four
+conjuncts that read the bins -/
+theorem sg_sinv_bins {V V' : St} (hi : SInv V) (hne : V.segs ≠ []) (he : V'.h.ents = V.h.ents)
+    (hsegs : V'.segs = V.segs) (htop : V'.h.top = V.h.top) (htops : V'.h.topsize = V.h.topsize)
+    (hla : V'.least_addr = V.least_addr)
+    (hfl : freeListOk V'.h = true) (hsb : sbinsOk V'.h = true) (htb : tbinsOk V'.h = true) (hdv : dvOk V'.h = true) :
+    SInv V' := by
+  have w := hi.wfs
+  refine ⟨⟨?_, ?_, ?_, ?_, ?_, hfl, hsb, htb, hdv, ?_, ?_⟩, ?_, ?_, ?_, ?_, ?_⟩
+  · rw [he]; exact w.ents
+  · rw [he]; exact w.shape
+  · rw [he, hsegs]; exact w.inSegs
+  · rw [he, hsegs]; exact w.tiles
+  · rw [he, hsegs, htop]; exact w.tags
+  · have ht := w.top
+    unfold topOk at ht ⊢
+    rw [hsegs, he, htop, htops]
+    cases hs : V.segs with
+    | nil => exact absurd hs hne
+    | cons g rest => rw [hs] at ht; exact ht
+  · unfold segsOk; rw [hsegs, hla]; exact w.segs
+  · intro g hg hn
+    rw [hsegs] at hg; rw [he]
+    exact hi.recs g hg hn
+  · intro pre x y post hes
+    rw [he] at hes; rw [hsegs]
+    exact hi.fence pre x y post hes
+  · intro g hg hn e hem
+    rw [hsegs] at hg ⊢; rw [he] at hem
+    exact hi.tail g hg hn e hem
+  · intro g hg e hem
+    rw [hsegs] at hg; rw [he] at hem
+    exact hi.head g hg e hem
+  · intro g hg
+    rw [hsegs] at hg
+    exact hi.recin g hg
+
+theorem sg_freeListOk_perm {h h' : Heap} (he : h'.ents = h.ents) (hp : List.Perm (freeList h') (freeList h))
+    (hf : freeListOk h = true) : freeListOk h' = true := by
+  rw [freeListOk_iff] at hf ⊢
+  obtain ⟨f1, f2, f3⟩ := hf
+  rw [he]
+  exact ⟨hp.nodup_iff.2 f1, fun e hm hfe => hp.mem_iff.2 (f2 e hm hfe), fun a ha => f3 a (hp.mem_iff.1 ha)⟩
+
+/-- the first chunk of a segment about to be released leaves the free lists -/
+theorem sg_release_unlink {V : St} (hi : SInv V) {p : Nat} {h1 : Heap}
+    (hh : (if p = V.h.dv then (pure { V.h with dv := 0, dvsize := 0 } : M Heap) else unlink_large_chunk V.h p) = .ok h1)
+    (hp : p ≠ 0) :
+    h1.ents = V.h.ents ∧ h1.top = V.h.top ∧ h1.topsize = V.h.topsize ∧
+      List.Perm (freeList V.h) (p :: freeList h1) ∧ sbinsOk h1 = true ∧ tbinsOk h1 = true ∧ dvOk h1 = true := by
+  have w := hi.wfs
+  split at hh
+  · rename_i hpd
+    msimp at hh
+    subst hh
+    subst hpd
+    refine ⟨rfl, rfl, rfl, ?_, w.sbins, w.tbins, rfl⟩
+    show List.Perm ((if V.h.top = 0 then [] else [V.h.top]) ++ ((if V.h.dv = 0 then [] else [V.h.dv]) ++ binned V.h))
+      (V.h.dv :: ((if V.h.top = 0 then [] else [V.h.top]) ++ ([] ++ binned V.h)))
+    rw [if_neg hp]
+    simp only [List.nil_append, List.singleton_append]
+    exact List.perm_middle
+  · have f := unlink_large_chunk_frame hh
+    refine ⟨f.1.ents, f.1.top, f.1.topsize, unlink_large_chunk_freeList hh, ?_, unlink_large_chunk_tbinsOk hh w.tbins, ?_⟩
+    · rw [unlink_large_chunk_sbinsOk hh]; exact w.sbins
+    · unfold dvOk; rw [f.1.dv, f.1.dvsize, f.1.ents]; exact w.dv
+
+theorem sg_not_inuse {e : Ent} (h : (!e.inuse) = true) : isFree e = true := by
+  rcases e with ⟨a, sz, c, p, pf⟩
+  cases c <;> cases p <;> simp_all [Ent.inuse, isFree]
+
+/-- **the loop of `release_unused_segments`**: `pref` = the segments already kept (head segment first), the
+loop state's own `segs` field is never read, so the invariant is stated for the list `pref ++ rest` -/
+theorem sg_releaseLoop (rest : List Seg) : ∀ {s s' : St} {pref : List Seg} {rel n rel' n' : Nat} {rest' : List Seg},
+    pref ≠ [] → SInv { s with segs := pref ++ rest } → releaseLoop rest s rel n = .ok (rest', s', rel', n') →
+    SInv { s' with segs := pref ++ rest' } ∧
+      SameUsers { s with segs := pref ++ rest } { s' with segs := pref ++ rest' } := by
+  induction rest with
+  | nil =>
+    intro s s' pref rel n rel' n' rest' _ hi h
+    unfold releaseLoop at h
+    msimp at h
+    simp only [Prod.mk.injEq] at h
+    obtain ⟨h1, h2, _, _⟩ := h
+    subst h1; subst h2
+    exact ⟨hi, fun _ _ => Iff.rfl⟩
+  | cons g rest ih =>
+    intro s s' pref rel n rel' n' rest' hpref hi h
+    have w := hi.wfs
+    have ih' : ∀ {s s' : St} {pref : List Seg} {rel n rel' n' : Nat} {rest' : List Seg},
+        releaseLoop rest s rel n = .ok (rest', s', rel', n') → pref ≠ [] → SInv { s with segs := pref ++ rest } →
+        SInv { s' with segs := pref ++ rest' } ∧
+          SameUsers { s with segs := pref ++ rest } { s' with segs := pref ++ rest' } := fun h a b => ih a b h
+    have happ : (pref ++ [g]) ++ rest = pref ++ g :: rest := by simp
+    have hpref' : pref ++ [g] ≠ [] := by simp
+    have hgm : g ∈ pref ++ g :: rest := by simp
+    have hsg := w.segs
+    unfold segsOk at hsg
+    simp only [Bool.and_eq_true, List.all_eq_true, decide_eq_true_eq, top_foot_size_eq] at hsg
+    have hgsz := hsg.2 g hgm
+    have hp : align_as_chunk g.base = g.base := align_as_chunk_aligned g.base (by omega) (by omega)
+    unfold releaseLoop at h
+    dsimp only at h
+    rw [hp] at h
+    msimp at h
+    obtain ⟨e, he, _, _, h⟩ := h
+    have hfe := getE_ok.1 he
+    split at h
+    · rename_i hc
+      simp only [Bool.and_eq_true, decide_eq_true_eq, ge_iff_le, top_foot_size_eq] at hc
+      obtain ⟨hc1, hc2⟩ := hc
+      have hfree := sg_not_inuse hc1
+      msimp at h
+      obtain ⟨_, hholds, h1, hh1, ⟨ok, s1⟩, hu, h⟩ := h
+      simp only [Bool.not_eq_false'] at hholds
+      have hrec : g.recAt ≠ 0 := by
+        unfold Seg.holds at hholds
+        simp only [Bool.and_eq_true, decide_eq_true_eq] at hholds
+        omega
+      obtain ⟨q, hq, hs1⟩ := popU_spec hu
+      obtain ⟨u1, u2, u3, u4, u5, u6, u7⟩ :=
+        sg_release_unlink (V := { s with segs := pref ++ g :: rest }) hi (p := g.base) hh1 (by omega)
+      subst hs1
+      dsimp only at h
+      split at h
+      · -- the OS took the segment back
+        msimp at h
+        obtain ⟨_, _, ⟨r1, s2, rl, nn⟩, hrec2, h⟩ := h
+        simp only [Prod.mk.injEq] at h
+        obtain ⟨e1, e2, _, _⟩ := h
+        subst e1; subst e2
+        have hih := ih' (pref := pref) hrec2 hpref
+        refine (fun (key : _ ∧ _) => ⟨(hih key.1).1, sg_sameUsers_trans key.2 (hih key.1).2⟩) ?_
+        exact sg_release_seg (V := { s with segs := pref ++ g :: rest }) hi rfl hpref hrec hfe hfree (by omega)
+          u1 u2 u4 u5 u6 u7
+          (by show (dropEnts h1 g.base g.top).ents = _; unfold dropEnts; rw [u1]) rfl rfl rfl rfl u2 u3 rfl rfl
+      · -- the OS refused: the chunk goes back into its tree bin
+        msimp at h
+        obtain ⟨h2, hins, ⟨r1, s2, rl, nn⟩, hrec2, h⟩ := h
+        simp only [Prod.mk.injEq] at h
+        obtain ⟨e1, e2, _, _⟩ := h
+        subst e1; subst e2
+        have f := insert_large_chunk_frame hins
+        have hih := ih' (pref := pref ++ [g]) hrec2 hpref'
+        have he2 : h2.ents = s.h.ents := by rw [f.1.ents, u1]
+        have := hih (by
+          refine sg_sinv_bins (V := { s with segs := pref ++ g :: rest }) hi (by simp) he2 happ ?_ ?_ rfl ?_ ?_ ?_ ?_
+          · show h2.top = s.h.top; rw [f.1.top, u2]
+          · show h2.topsize = s.h.topsize; rw [f.1.topsize, u3]
+          · refine sg_freeListOk_perm (h := s.h) (h' := h2.tag "segment-unmap-refused") he2 ?_ w.freeList
+            exact (insert_large_chunk_freeList hins).trans u4.symm
+          · show sbinsOk h2 = true
+            rw [insert_large_chunk_sbinsOk hins]; exact u5
+          · show tbinsOk h2 = true
+            refine insert_large_chunk_tbinsOk hins (by omega) (by rw [u1]; exact sg_entsLt w) ?_ u6
+            rw [u1, sizeAt_iff]; exact ⟨e, hfe, rfl⟩
+          · show dvOk h2 = true
+            unfold dvOk at u7 ⊢
+            rw [f.1.dv, f.1.dvsize, f.1.ents]; exact u7)
+        simp only [List.append_assoc, List.singleton_append] at this
+        refine ⟨this.1, sg_sameUsers_trans ?_ this.2⟩
+        exact sg_sameUsers_of_eq he2 rfl
+    · msimp at h
+      obtain ⟨⟨r1, s2, rl, nn⟩, hrec2, h⟩ := h
+      simp only [Prod.mk.injEq] at h
+      obtain ⟨e1, e2, _, _⟩ := h
+      subst e1; subst e2
+      have hi1 : SInv { s with segs := (pref ++ [g]) ++ rest } := by rw [happ]; exact hi
+      have := ih hpref' hi1 hrec2
+      simp only [List.append_assoc, List.singleton_append] at this
+      exact this
+
+/-- **`release_unused_segments`** keeps the invariant and the user chunks -/
+theorem sg_release_unused_segments_spec : release_unused_segments_Spec := by
+  intro s s' hi r h
+  unfold release_unused_segments at h
+  split at h
+  · msimp at h
+    simp only [Prod.mk.injEq] at h
+    obtain ⟨h, _⟩ := h
+    subst h
+    exact ⟨sg_sinv_same hi ⟨rfl, rfl, rfl, rfl, rfl, rfl, rfl⟩ rfl rfl (fun _ => rfl), sg_sameUsers_of_eq rfl rfl⟩
+  · rename_i hd rest hsegs
+    msimp at h
+    obtain ⟨⟨r1, s2, rl, nn⟩, hrec, h⟩ := h
+    simp only [Prod.mk.injEq] at h
+    obtain ⟨h, _⟩ := h
+    subst h
+    have hi0 : SInv { s with segs := [hd] ++ rest } :=
+      sg_sinv_same hi ⟨rfl, rfl, rfl, rfl, rfl, rfl, rfl⟩ (by simp [hsegs]) rfl (fun _ => rfl)
+    obtain ⟨i2, su2⟩ := sg_releaseLoop rest (pref := [hd]) (by simp) hi0 hrec
+    refine ⟨sg_sinv_same i2 ⟨rfl, rfl, rfl, rfl, rfl, rfl, rfl⟩ rfl rfl (fun h0 => by simp at h0), ?_⟩
+    have a1 : SameUsers s { s with segs := [hd] ++ rest } := sg_sameUsers_of_eq rfl (by simp [hsegs])
+    exact sg_sameUsers_trans a1 (sg_sameUsers_trans su2 (sg_sameUsers_of_eq rfl rfl))
+
+/-- **`sys_trim`** keeps the invariant and the user chunks -/
+theorem sg_sys_trim_spec : sys_trim_Spec := sg_sys_trim_of_release sg_release_unused_segments_spec
+
 end TinyVerif.Dl
